@@ -16,13 +16,32 @@ void Group::replaceEntities(const std::vector<T> &entities)
 {
     base::IGroup *ig = backend();
     ObjectType ot = objectToType<T>::value;
+    typedef typename objectToType<T>::backendType backend_type;
 
-    while (ig->entityCount(ot) > 0) {
-        ig->removeEntity(ig->getEntity<typename objectToType<T>::backendType>(0));
+    // the new members are checked while they are added: if one of them is
+    // refused the previous members are put back before the error is passed on
+    std::vector<std::shared_ptr<backend_type>> previous;
+    ndsize_t count = ig->entityCount(ot);
+    for (ndsize_t i = 0; i < count; i++) {
+        previous.push_back(ig->getEntity<backend_type>(i));
     }
 
-    for (const auto &e : entities) {
-        ig->addEntity(e);
+    while (ig->entityCount(ot) > 0) {
+        ig->removeEntity(ig->getEntity<backend_type>(0));
+    }
+
+    try {
+        for (const auto &e : entities) {
+            ig->addEntity(e);
+        }
+    } catch (...) {
+        while (ig->entityCount(ot) > 0) {
+            ig->removeEntity(ig->getEntity<backend_type>(0));
+        }
+        for (const auto &p : previous) {
+            ig->addEntity(p);
+        }
+        throw;
     }
 }
 
